@@ -27,7 +27,7 @@ TARGETS = ['ActiveFabric', 'FiberThreadEvent', 'InstrumentionWriter',
            'fresh:SignalSource', 'fresh:ReturnStatusSource', 'ActiveObject']
 
 PLAN = {
-  'quick': {'strata': {'concurrent-first-request': 6000}, 'wall_s': 300, 'chunk': 100, 'min_conclusive': 500},
+  'quick': {'strata': {'concurrent-first-request': 10000}, 'wall_s': 300, 'chunk': 100, 'min_conclusive': 500},
   'thorough': {'strata': {'concurrent-first-request': 150000}, 'wall_s': 600, 'chunk': 250, 'min_conclusive': 500},
 }
 
